@@ -404,6 +404,10 @@ class Replayer:
         exp_err = step.get("err")
         if not side.alive:
             return
+        if m["v"] == "equiv":
+            if "val" in step:
+                self.run_equiv(node, beh, k, side, step)
+            return
         subq = False
         immut = self.opts.get("immut")
         if immut:
@@ -510,6 +514,64 @@ class Replayer:
                             self.fail(node, beh, k, bk, "immut-query", "build_query() twice on one table gave different text")
                 except Exception as e:  # noqa: BLE001
                     self.fail(node, beh, k, bk, "immut-data", f"re-export of input table {m[w]} raised {exc_class(e)}: {e}")
+
+    def run_equiv(self, node, beh, k, side, step):
+        """C15: both sides of a documented equivalence are executed from the same table and compared with the
+        specification's prediction and with each other."""
+        R = self.R
+        bk = side.backend
+        m = step["m"]
+        val = step["val"]
+        results = {}
+        for which, obs in (("lhs", val["lo"]), ("rhs", val["ro"])):
+            t = side.heap[m["i"] - 1]
+            if t is None:
+                return
+            colmap = dict(side.colmap)
+            heap = list(side.heap) + [t]
+            cur = len(heap)
+            try:
+                for mm in m[which]:
+                    mm2 = dict(mm, i=cur)
+                    try:
+                        t = R.apply_move(mm2, heap, colmap)
+                    except Exception as e:  # noqa: BLE001
+                        if exc_class(e) == "SubqueryError" and bk != "polars":
+                            heap[cur - 1] = heap[cur - 1] >> R.alias(keep_col_refs=True)
+                            t = R.apply_move(mm2, heap, colmap)
+                        else:
+                            raise
+                    heap[cur - 1] = t
+                df = t >> R.export(R.pdt.Polars())
+            except R.MissingRef:
+                return
+            except Exception as e:  # noqa: BLE001
+                if exc_class(e) in ("SubqueryError", "NotSupportedError") and bk != "polars":
+                    return
+                self.fail(node, beh, k, bk, "accept", f"{m['kind']} {which}: raised {exc_class(e)}: {e}", exc=exc_class(e))
+                return
+            specdef = obs["pdef"] if bk == "polars" else obs["sdef"]
+            if list(df.columns) != obs["names"]:
+                self.fail(node, beh, k, bk, "names", f"{m['kind']} {which}: exported {list(df.columns)}, specification {obs['names']}")
+                return
+            if specdef:
+                res = CMP.compare_rows(CMP.spec_rows(obs), CMP.frame_rows(df), obs["tys"], None)
+                if res is not None:
+                    self.fail(node, beh, k, bk, res[0], f"{m['kind']} {which}: " + res[1])
+            results[which] = (df, specdef)
+        if len(results) == 2 and results["lhs"][1] and results["rhs"][1]:
+            dl, dr = results["lhs"][0], results["rhs"][0]
+            if m["modcols"]:
+                if sorted(dl.columns) != sorted(dr.columns):
+                    self.fail(node, beh, k, bk, "equiv", f"{m['kind']}: column sets differ {dl.columns} vs {dr.columns}")
+                    return
+                dr = dr.select(dl.columns)
+            elif list(dl.columns) != list(dr.columns):
+                self.fail(node, beh, k, bk, "equiv", f"{m['kind']}: columns differ {dl.columns} vs {dr.columns}")
+                return
+            res = CMP.compare_rows(CMP.frame_rows(dl), CMP.frame_rows(dr), val["lo"]["tys"], None)
+            if res is not None:
+                self.fail(node, beh, k, bk, "equiv", f"{m['kind']}: the two sides differ: " + res[1])
 
     def retry_with_alias(self, node, beh, k, side, m):
         """C08: inserting alias() directly before the refused verb must make it accepted."""
